@@ -49,6 +49,8 @@ structure QI where
   ns       : List Nat    -- annotation namespaces of the API object (parsed)
   -- representation of the compared fields (quotaFieldsCopy compares the RAW annotation string and the
   -- Spec maps with reflect.DeepEqual, so two spellings of the same content are "different"):
+  parentEmpty : Bool := false  -- the parent label is absent or "" (same string for the comparison; differs from a written-out root)
+  ipSpell  : Nat := 0    -- spelling of a FALSE is-parent label: 0 "false", 2 label absent, 3 another string
   nsShape  : Nat := 0    -- 0 canonical JSON (absent when empty), 1 another spelling of the same list, 2 malformed (parsed as nil)
   mnNil    : Bool := false   -- Spec.Min is a nil map (only without keys; nil != empty for DeepEqual)
   mxNil    : Bool := false
@@ -205,7 +207,8 @@ def validAdd (d : Nat) (s : Topo) (q : QI) (swNeg : Bool) : Topo × Bool :=
 /-- quotaFieldsCopy equality (labels parent / is-parent / tree-id, annotation namespaces, spec). -/
 def sameFields (o q : QI) : Bool :=
   o.parent == q.parent && o.isParent == q.isParent && o.tree == q.tree && o.ns == q.ns &&
-  o.mn == q.mn && o.mx == q.mx && o.nsShape == q.nsShape && o.mnNil == q.mnNil && o.mxNil == q.mxNil
+  o.mn == q.mn && o.mx == q.mx && o.nsShape == q.nsShape && o.mnNil == q.mnNil && o.mxNil == q.mxNil &&
+  o.parentEmpty == q.parentEmpty && o.ipSpell == q.ipSpell
 
 def replace (info : List QI) (q : QI) : List QI :=
   info.map (fun c => if c.name = q.name then q else c)
@@ -307,7 +310,9 @@ def decodeQI (r : Raw) : QI :=
   { name := r.name, parent := parentOf r.name r.parentCode, isParent := labelTrue r.isParentCode, tree := r.tree,
     force := labelTrue r.forceCode, treeRoot := labelTrue r.rootCode, mn := r.mn, mx := r.mx,
     ns := if r.nsShape = 2 then [] else r.nsList,
-    nsShape := r.nsShape, mnNil := r.mnNil && noKeys r.mn, mxNil := r.mxNil && noKeys r.mx }
+    nsShape := r.nsShape, mnNil := r.mnNil && noKeys r.mn, mxNil := r.mxNil && noKeys r.mx,
+    parentEmpty := r.parentCode = 98 || r.parentCode = 99,
+    ipSpell := if r.isParentCode = 2 || r.isParentCode = 3 then r.isParentCode else 0 }
 
 /-- a pod of the environment: nsKind 0 = some unrelated namespace, 1 = namespace ns<ns>, 2 = the namespace
     whose name equals quota <ns>'s name; label = quota-name label. -/
